@@ -15,7 +15,8 @@ TREE = ("BFS over block-tree arrival histories of the real CoinState (every stor
 CHECKS = {
     'C01': (MC, "explicit-state search over block-tree histories; every adversarial candidate block offered on every stored "
                 "parent of every state; lock-step reference validator + deep state fingerprint",
-            TREE + "in every state every stored block is offered ~45 candidate blocks each breaking exactly one spend rule "
+            TREE + "in every state every stored block is offered ~55 candidate blocks each breaking exactly one spend rule (incl. two "
+            "outputs of one funding transaction held by different keys, spent together under one owner's signatures) "
             "(plus valid controls), including candidates signed over whatever the implementation itself treats as the signed "
             "message. accept => reference-valid; any raise => deep fingerprint of the prior state unchanged; accepted controls "
             "must produce the reference unspent set. Exhaustive within depth 3 (quick) / 4 (thorough) on a harness-rooted "
@@ -60,30 +61,39 @@ CHECKS = {
                 "easy-target universe where proof-of-work luck cannot mask anything",
             "For 40 (quick) / several hundred (thorough) fully valid blocks with 1-4 transactions, reward data 0/1/200 bytes and "
             "heights on both sides of the VLQ width boundaries, every bit flip and every proper prefix of the encoding goes "
-            "through Block.deserialize and CoinState.add_block on the chain holding the block's parent; any acceptance is a "
-            "violation. If the tree under test refuses the reference-assembled blocks, blocks from its own assembly are used.",
+            "through Block.deserialize and CoinState.add_block on the chain holding the block's parent, and every refused "
+            "mutant is presented a second time; any acceptance is a violation. If the tree under test refuses the reference-assembled blocks, blocks from its own assembly are used.",
             "Single-bit and truncation faults only; the rejecting-rule histogram in the evidence is informational.",
             "DESIGN.md section 4, C06"),
     'C07': (EX, "exhaustive enumeration of decoder inputs: all short VLQ strings, every byte x position substitution of sample "
-                "encodings, prefix insertion, trailing data; value-grid round trips",
+                "encodings, prefix insertion, trailing data; value-grid round trips; preemption-bounded exhaustive exploration of "
+                "two-thread schedules of hash()/serialize() on the real classes",
             "Every byte string of length <= 2 (3 thorough) to the VLQ decoder; for ~30 (50) canonical encodings of all consensus "
             "types every position x every byte value, 1..8 redundant continuation bytes before every VLQ field, trailing data: "
             "whatever decodes must re-encode to the consumed bytes and carry id = sha256d(canonical encoding); 1,060 grid values "
-            "of all consensus and wire types round-trip field by field; ids of objects read back from a BlockStore.",
+            "of all consensus and wire types round-trip field by field; ids of objects read back from a BlockStore; list sizes up to "
+            "16384. Threads: 5 two-thread plans (id / encoding of a value built in memory, message bytes as send_message builds "
+            "them) under every schedule with <= 1 (2) preemptions at source-line granularity of datatypes, serialization, "
+            "signing and messages: every result equals the reference encoding / its double SHA-256 and decodes back.",
             "The space of byte strings is unbounded; what is complete is the stated mutation families.", "DESIGN.md section 4, C07"),
     'C08': (MC, "explicit-state search over write histories x every flush batching x restart after every flush, on the real "
-                "BlockStore file and the real read_chain_from_disk",
+                "BlockStore file and the real read_chain_from_disk; preemption-bounded exhaustive exploration of 2-3 writer "
+                "threads on one store",
             "All block-tree write histories over the payload menu (forks including the same pending transaction, the same "
             "reward transaction, spends that differ between forks, multi-input/multi-output) up to 3 (quick) / 4 blocks beyond "
             "a 2-block prefix, under every composition of the writes into flush batches; after every flush a new BlockStore on "
             "the same file and read_chain_from_disk: same ids, byte-identical blocks, parent before child, rebuilt unspent set "
             "at every block and head height equal to the pre-restart ones; plus a 201-block chain carrying reward data of every "
-            "length 0..200 under three batchings. One recorded defect (shared transaction across "
+            "length 0..200 under three batchings. Threads: 4 plans of 2-3 threads doing save_block / flush_blocks through the "
+            "real DiskInterface on one file store, every schedule with <= 2 (3) preemptions (3-thread plan one less) at "
+            "source-line granularity of blockstore.py: every block whose saving thread's flush returned is read back "
+            "byte-identical from the re-opened store, no exception, no deadlock. One recorded defect (shared transaction across "
             "stored blocks) is reported as KNOWN-FINDING; anything else is a VIOLATION.",
             "Clean restart only (no SQLite crash consistency); blocks are assembled without the nonce search because the store "
             "never looks at proof of work.", "DESIGN.md section 4, C08"),
     'C09': (MC, "explicit-state search over delivery sequences to one real node with the real store; state = history replayed on "
-                "fresh objects; reference validator + store/buffer/pool/relay observation in lock-step",
+                "fresh objects; reference validator + store/buffer/pool/relay observation in lock-step; preemption-bounded "
+                "exhaustive exploration of the networking thread against the miner thread",
             "One real LocalPeer/ChainManager/ConnectedRemotePeer over fake sockets with the real DiskInterface and a file "
             "BlockStore, a greeted deliverer and observer, a pending transaction in the pool. BFS to depth 3 (4) over ~43 event "
             "kinds instantiated at each state: valid blocks on the head and on side forks (overtaking or not), duplicates, an "
@@ -91,7 +101,12 @@ CHECKS = {
             "apply errors). After each delivery: entered state only if reference-valid with stored parent; accepted => committed "
             "to the store (read through a second connection) and relayed exactly once iff new head; otherwise chain state, "
             "store rows, write buffer and pool unchanged and nothing relayed; each sequence is closed by a fresh valid block "
-            "that must get stored.",
+            "that must get stored. The deliverer greets with a header time stamp one hour ahead. Threads: the networking "
+            "thread (iterations of LocalPeer.run's loop body over the fake selector) handles a valid sibling block / a block "
+            "failing full validation / a transaction while the miner thread runs the real found-block handler, every schedule "
+            "with <= 1 (2) preemptions at source-line granularity of mining, manager, blockstore, disk_interface, local_peer "
+            "and remote_peer (framing loop atomic): a rejected block is in neither state nor store, an accepted one is stored "
+            "and relayed at most once, the write buffer ends empty, nothing escapes the event loop.",
             "Bulk-download deliveries (in_response_to != 0) are excluded by the property's wording.", "DESIGN.md section 4, C09"),
     'C10': (MC, "stateless exploration of 2-3 real nodes under a scheduler that owns deliveries, accepts, timer steps, clock and "
                 "the fetch-peer choice: exhaustive DFS with canonical-state de-duplication (small 2-node configurations) and "
@@ -115,29 +130,41 @@ CHECKS = {
             "boundary lengths, short/long lengths, undecodable payloads, truncation); for each: whole, bytewise, every 2-way cut "
             "(also with an empty read) and every 3-way cut, through MessageReceiver.receive and through "
             "ConnectedRemotePeer.handle_receive_data; the dispatched sequence and the read that raises the refusal must equal "
-            "the reference framer's under every cut.",
+            "the reference framer's under every cut. Frames of 5 KB / 71 KB (thorough 1.1 MB) alone, first and last in a stream under "
+            "1024 / 4096 / 65536-byte reads and every single cut next to a frame boundary, a power of two or the end.",
             "Payload validity inside a frame is decided by the real message decoders (fragmentation independence, not the "
             "decoders, is under test here).", "DESIGN.md section 4, C11"),
     'C12': (MC, "exhaustive enumeration of ledger states x pool subsets x clock offsets x intervening event, driving the real "
-                "MinerWatcher handlers in the role of the miner process",
+                "MinerWatcher handlers in the role of the miner process; preemption-bounded exhaustive exploration of the "
+                "found-block handler (miner thread) against the networking thread",
             "For every ledger state of a block-tree search (depth 2 / 3, forks, head on either branch), every compatible pool "
             "subset of size <= 3 (fees 0, 3, 1000, 10^8; 1- and 2-input), clock - head time in {-30,-29,-1,0,1,120} and "
-            "{nothing, competing block with a time inside (clock, clock+30] arrives, pool gains a transaction} injected after "
-            "work request 0 or 1 or after result 0 (root target 2^255, so runs contain losing nonces): the found block "
+            "{nothing, the clock advances by 7 s, competing block with a time inside (clock, clock+30] arrives, pool gains a "
+            "transaction} injected after "
+            "work request 0 or 1 or after result 0 (root target 2^255, so runs contain losing nonces; retarget period seam 4, so "
+            "candidates at heights 4 and 8 are retarget-boundary blocks): the found block "
             "passes the node's add_block on the state served at request time and the reference validator, pays exactly subsidy "
             "+ fees to the handed-out key, is later than its parent; afterwards the served chain state contains it (as head if "
             "it extends the served head), the store has it, every greeted peer got it exactly once. The clock = head-30 corner "
-            "is a recorded KNOWN-FINDING.",
-            "The miner process is played by the harness (scrypt stand-in); thread interleavings between miner and network "
-            "thread are not explored.", "DESIGN.md section 4, C12"),
+            "is a recorded KNOWN-FINDING. Threads: the real found-block handler for a winning nonce in one thread, the networking "
+            "thread handling a valid sibling block / an invalid block / a transaction in the other, every schedule with <= 1 "
+            "(2) preemptions at source-line granularity: afterwards the found block is in the served chain state, in the "
+            "store, reached every peer exactly once and the handler did not raise.",
+            "The miner process is played by the harness (scrypt stand-in). Thread schedules: source-line granularity, <= 2 "
+            "preemptions, 2 threads.", "DESIGN.md section 4, C12"),
     'C13': (MC, "explicit-state search over interleavings of submissions and head changes on one real node; reference pool and "
-                "ledger in lock-step",
+                "ledger in lock-step; preemption-bounded exhaustive exploration of admission / head change / observer threads "
+                "on the real ChainManager",
             "BFS to depth 4 (6), de-duplicated on (stored blocks, head, ordered pool): submissions (valid, conflicting, "
             "overlapping 2-input, already mined, other-fork output, 8 malformed kinds, bad signature, overspend, resubmission) "
             "through the network handler and through add_transaction_to_pool; head changes (extension including / conflicting "
             "with / ignoring pooled transactions, side forks, reorganisations) through relayed blocks and through set_coinstate. "
             "After every operation: every pooled transaction reference-valid at the head, pairwise disjoint references, "
-            "nothing inadmissible admitted, after a head change exactly the still-valid ones remain.",
+            "nothing inadmissible admitted, after a head change exactly the still-valid ones remain. Threads: 6 plans of 2-3 "
+            "threads (add_transaction_to_pool, a head change that spends / ignores the inputs, a get_state observer) under every "
+            "schedule with <= 2 (3) preemptions at source-line granularity of manager.py, and the pool after the miner thread "
+            "and the networking thread raced: the pool at the end and every observed snapshot is valid at its head and "
+            "conflict-free, still-valid transactions are not dropped.",
             "Fork choice itself is C04's subject: if the implementation's head differs from the reference the pool oracle is "
             "suspended for that step.", "DESIGN.md section 4, C13"),
     'C14': (MC, "explicit-state search per ledger world over wallet states with the full (amount, fee) alphabet at every state; "
@@ -148,7 +175,8 @@ CHECKS = {
             "fee 0..2 at every state, with and without confirming the returned transaction in a block: a returned transaction "
             "must pass the node's and the reference validation, pay exactly, give exactly the change, use only unused wallet "
             "outputs; a failure must leave the record unchanged and happen only when unused outputs do not suffice. 24 (40) worlds are "
-            "explored to 5 (6) operations with a reduced amount alphabet and confirmation of ANY pending spend as its own operation.",
+            "explored to 5 (6) operations with a reduced amount alphabet, confirmation of ANY pending spend as its own operation and "
+            "one reorganisation onto a branch without the confirmed spends.",
             "Greedy selection order is whatever the wallet does; only the stated outcome is checked.", "DESIGN.md section 4, C14"),
     'C15': (MC, "explicit-state search over wallet operation sequences with a reference wallet in lock-step; crash-point "
                 "enumeration of every save (snapshot at every raw write / close / rename)",
@@ -157,35 +185,42 @@ CHECKS = {
             "(also across save/load), load reproduces what was saved, dump+load is the identity; get_balance equals the reference "
             "total in every reachable unused/annotated partition on three ledger states; for every save executed, and for a "
             "100 (400)-key wallet crossing the 8 KiB write buffer, every on-disk view at every operation boundary is loaded "
-            "with the real loader and must be the complete old or the complete new wallet.",
+            "with the real loader and must be the complete old or the complete new wallet; the skepticoin-receive command is "
+            "killed at every file-operation and output boundary and invoked again on what it left: an address already shown "
+            "is never shown again while unused keys remain.",
             "Process-crash model (kernel view at syscall boundaries); no power-loss reordering.", "DESIGN.md section 4, C15"),
     'C17': (EX, "exhaustive enumeration of all lists over a small alphabet and all single edits / proof positions per length",
             "All lists over 3 (4) ids up to length 8 (9): commitments pairwise distinct (covers every substitution, reordering, "
             "removal, append, duplication incl. duplicate-last); for every length up to 33 (130) every single edit changes the "
             "commitment and the proof at every position reproduces it and contains the entry; the same edits on real blocks' "
-            "transaction lists with the header kept are refused.",
+            "transaction lists with the header kept are refused; every ordered pair of lists over 4 ids up to length 4 (5): "
+            "after committing to the first, the tree and every proof of the second are right (no dependence on earlier calls).",
             "Leaves are independent hashes; a leaf equal to an inner node needs a preimage.", "DESIGN.md section 4, C17"),
     'C18': (EX, "exhaustive enumeration of all 327 checkpoints x id variants x both entry points; recorded blocks re-validated "
                 "with real scrypt",
             "Every checkpoint height with wrong id / right id / neighbouring checkpoint's id through validate_block_in_coinstate "
             "and CoinState.add_block, on a node with genesis only, with its head far above all checkpoints, and with its head at "
             "1234; horizon-1/0/+1; table pinned by digest; genesis + 5 recorded blocks keep id and bytes and "
-            "pass full validation with the real scrypt (horizon lowered), also when a competing block at height 1 arrived first, "
-            "and the check's reference validator agrees on them.",
+            "pass full validation with the real scrypt (horizon lowered), also when a competing block at height 1 arrived first "
+            "and right after refused look-alikes (altered evidence; re-mined copies claiming a wrong height whose evidence "
+            "reconstruction fails half-way), and the check's reference validator agrees on them.",
             "Only six recorded real blocks exist offline.", "DESIGN.md section 4, C18"),
     'C16': (EX, "exhaustive enumeration of the whole input domain (every height) against a closed-form reference",
             "Complete enumeration: get_block_subsidy is evaluated at every one of the 33.6 million heights up to one "
             "full era past exhaustion and at every era boundary up to 2^32-1 and beyond, compared with the closed-form "
             "schedule, checked for monotonicity, summed (= documented maximum) and compared with docs/params.md; the same heights "
             "in descending order, every ordered pair of 106 representative heights and every ordered triple of era starts "
-            "(the answer must not depend on earlier calls). "
+            "(the answer must not depend on earlier calls); the validator's reward bound at the real era boundaries; 11,117 "
+            "output lists over a boundary alphabet offered to the stand-alone transaction validator (accepted iff every output "
+            "and the total are in (0, maximum]). "
             "Nothing is sampled, so the verdict is a statement about all inputs.",
             "Trusts the closed-form schedule written in the check (10^9 >> (h // 1,050,000)) and the regexes that read "
             "docs/params.md.", "DESIGN.md section 4, C16"),
     'C19': (MC, "explicit-state search over network-manager event sequences on one real node with a back-off monitor in "
                 "lock-step; exhaustive back-off table; crash-point enumeration of every peer-file rewrite",
             "BFS to depth 5 (6) from six initial peer books (empty, one, two hosts, two ports, and two non-initial ones with 2 / 3 "
-            "prior failures) and to depth 3 (4) from two states reached by an event prefix (two greeted connections) over ticks (+0,9,10,11,20,40,1800 s), dials established / refused, incoming connections (also "
+            "prior failures) and to depth 3 (4) from three states reached by an event prefix (two greeted connections; a given-up "
+            "address in the book next to a greeted peer) over ticks (+0,9,10,11,20,40,1800 s), dials established / refused, incoming connections (also "
             "duplicate keys), greetings (claimed port, own / other nonce, repeated), peers messages (incl. IPv6-only), remote "
             "close, garbage, OS error, <= 3 open connections, give-up seam 3: no key in both maps, nothing escapes the loop, "
             "every dial satisfies the back-off monitor and the give-up bound, self-connections are dropped, recorded and never "
